@@ -364,7 +364,7 @@ fn run_history(case: &Case, plan: &Plan, sim: &mut Sim, out: &mut Outcome, last_
     Ok(())
 }
 
-fn apply(sim: &mut Sim, op: &Op, last_n: u64) {
+pub fn apply(sim: &mut Sim, op: &Op, last_n: u64) {
     match op {
         Op::S(st) => sim.step(st),
         Op::Switch { depth, extra, seed } => {
